@@ -1,3 +1,5 @@
 import PfVerif.Audit.Tool
 import PfVerif.Props.C16
+import PfVerif.Lemmas.C16Session
 #audit_module PfVerif.Props.C16
+#audit_module_ns PfVerif.Lemmas.C16Session PfVerif.C16Session
